@@ -71,11 +71,18 @@ def run(ctx: Ctx) -> Outcome:
         for fam in FAMILY_NAMES:
             for ops, recs in results[fam]:
                 for i, rec in enumerate(recs):
+                    if rec["op"] == "mutate" and not rec.get("result_independent_of_input", True):
+                        # the caller changed the input it had passed, and the result it had got back changed with it
+                        none = {"k": "ok", "r": {"k": "none", "cls": "NoneType"}}
+                        events.append({"warm": none, "cold": none, "input_intact": True, "earlier_intact": True, "results_disjoint": True,
+                                       "result_independent_of_input": False})
+                        meta.append({"family": fam, "history": ops, "at": i, "eq": 0, "d": 0})
+                        continue
                     if rec["op"] != "call":
                         continue
                     c = cold[(fam, rec["eq"], rec["d"])]
                     events.append({"warm": rec["warm"], "cold": c["cold"], "input_intact": rec["input_intact"] and c["input_intact"],
-                                   "earlier_intact": rec["earlier_intact"]})
+                                   "earlier_intact": rec["earlier_intact"], "results_disjoint": rec.get("results_disjoint", True), "result_independent_of_input": True})
                     meta.append({"family": fam, "history": ops, "at": i, "eq": rec["eq"], "d": rec["d"]})
     finally:
         for zz in pool[::-1]:   # youngest first: a zygote forked later holds copies of the older ones' pipe ends
@@ -119,7 +126,7 @@ def replay(ctx: Ctx, rep: dict) -> Outcome:
                 print("  ", rec); continue
             c = z.ask({"kind": "cold", "fam": m["family"], "eq": rec["eq"], "d": rec["d"]})
             print("   call", rec["eq"], rec["d"], "warm", json.dumps(rec["warm"])[:120], "cold", json.dumps(c["cold"])[:120])
-            events.append({"warm": rec["warm"], "cold": c["cold"], "input_intact": rec["input_intact"], "earlier_intact": rec["earlier_intact"]})
+            events.append({"warm": rec["warm"], "cold": c["cold"], "input_intact": rec["input_intact"], "earlier_intact": rec["earlier_intact"], "results_disjoint": rec.get("results_disjoint", True), "result_independent_of_input": True})
     finally:
         z.close()
     _, rejects = tlc.validate_trace("Caches_Trace", "Caches_Trace.cfg", events)
